@@ -139,12 +139,79 @@ def _executed_on(node, scope, fdefs, env, events, stop=None):
     return "open", open_
 
 
+def _loop_pass(XL, outer_defs, env, subst):
+    """one pass through the body of the loop XL on representative inputs, statement by statement (a local assigned several times holds what the LAST executed assignment gave it):
+    'exit' (break / return reached), 'next' (continue), 'raise', None (the body runs to its end). Expressions are evaluated by minieval after `subst` and after replacing the
+    single-assignment locals defined outside the loop; what cannot be evaluated is forgotten (the local becomes unbound) unless a decision about an exit depends on it: CannotEval."""
+    env = dict(env)
+
+    def val(e):
+        try:
+            return _me.ev(ast.fix_missing_locations(subst(source.inline_node(e, outer_defs))), env)
+        except (TypeError, ValueError, AttributeError) as x:
+            raise _me.CannotEval(f"{short(e, 40)}: {type(x).__name__}")
+
+    def stored(stmts):
+        return {x.id for s_ in stmts for x in ast.walk(s_) if isinstance(x, ast.Name) and isinstance(x.ctx, (ast.Store, ast.Del))}
+
+    def leaves(stmts):
+        return any(isinstance(x, (ast.Break, ast.Return, ast.Continue, ast.Raise)) for s_ in stmts for x in ast.walk(s_))
+
+    def block(stmts):
+        for s_ in stmts:
+            if isinstance(s_, (ast.Break, ast.Return)):
+                return "exit"
+            if isinstance(s_, ast.Continue):
+                return "next"
+            if isinstance(s_, ast.Raise):
+                return "raise"
+            if isinstance(s_, ast.If):
+                try:
+                    t_ = bool(val(s_.test))
+                except _me.CannotEval as x:
+                    if leaves(s_.body + s_.orelse):
+                        raise _me.CannotEval(f"`{short(s_.test, 50)}` decides about leaving the loop: {x}")
+                    for nm in stored(s_.body + s_.orelse):
+                        env.pop(nm, None)
+                    continue
+                r = block(s_.body if t_ else s_.orelse)
+                if r:
+                    return r
+            elif isinstance(s_, ast.Assign) and len(s_.targets) == 1 and isinstance(s_.targets[0], ast.Name):
+                try:
+                    env[s_.targets[0].id] = val(s_.value)
+                except _me.CannotEval:
+                    env.pop(s_.targets[0].id, None)
+            elif isinstance(s_, (ast.With, ast.AsyncWith)):
+                for nm in stored([i_.optional_vars for i_ in s_.items if i_.optional_vars is not None]):
+                    env.pop(nm, None)
+                r = block(s_.body)
+                if r:
+                    return r
+            elif isinstance(s_, ast.Try):
+                r = block(s_.body) or block(s_.orelse)
+                r2 = block(s_.finalbody)
+                if r2 or r:
+                    return r2 or r
+            elif isinstance(s_, (ast.For, ast.AsyncFor, ast.While)):
+                if any(isinstance(x, ast.Return) for x in ast.walk(s_)):
+                    raise _me.CannotEval(f"nested loop at line {s_.lineno} may leave the routine")
+                for nm in stored([s_]):
+                    env.pop(nm, None)
+            else:
+                for nm in stored([s_]):
+                    env.pop(nm, None)
+        return None
+
+    return block(XL.body)
+
+
 def _task_env(completes, any_, **more):
     """the executor of client 0 of a task with the given completed-by flags (two clients); `more`: further locals (the loop variables of the request loop ...)"""
     return dict({"self": _me.Record(client_id=0, task=_me.Record(completes_parent=completes, any_completes_parent=any_, clients=2))}, **more)
 
 
-def complete_read_exemption_rule(chk, rid, drv):
+def complete_read_exemption_rule(chk, rid, drv, ends_others=False):
     """AsyncExecutor.__call__: the shared complete event may end the request loop only for a task that does NOT itself complete its parent — several clients of the completing task
     share the worker's event and the first of them to finish sets it; its siblings must go on until their own runner / iteration count is done. Shared with C05 (each client executes
     exactly warm-up + measurement iterations). Decided on VALUES: for every exit of the request loop that a poll of the event controls (directly in a condition on the way to it, or
@@ -226,6 +293,28 @@ def complete_read_exemption_rule(chk, rid, drv):
                 continue
             chk.ob(rid, "executor: the complete event ends the loop only when the task does not complete its parent itself", ok, st_, detail,
                    key=f"{_D}:AsyncExecutor.__call__:complete-read:{short(st_, 60)}")
+    if n_ctl > 0 and ends_others:  # C01 only (C05 shares the exemption above, not this clause)
+        # the other direction (completed-by ENDS the other tasks): a client of a task that does not complete its parent, whose own runner is not done - it reports no completion
+        # at all (None: most runners) or says "not yet" (False: runners that track their own progress) -, leaves the request loop after the current request once the event is set.
+        # One pass through the loop body is interpreted statement by statement for both answers of the runner
+        outer = {k: v for k, v in edefs.items() if k not in {x.id for x in ast.walk(XL) if isinstance(x, ast.Name) and isinstance(x.ctx, (ast.Store, ast.Del))}}
+        res, why = {}, None
+        for cv in (None, False):
+            lv = {x.id: _me.Record(completed=cv, percent_completed=None) for x in ast.walk(XL.target) if isinstance(x, ast.Name)} if isinstance(XL, (ast.For, ast.AsyncFor)) else {}
+            try:
+                res[cv] = (_loop_pass(XL, outer, _task_env(False, False, **lv), _event_polls(dict(quiet, **{done: True}))),
+                           _loop_pass(XL, outer, _task_env(False, False, **lv), _event_polls(dict(quiet, **{done: False}))))
+            except _me.CannotEval as x:
+                why = str(x)
+                break
+        if why is not None:
+            chk.unknown(rid, f"executor: one pass through the request loop cannot be interpreted for a client of a task that does not complete its parent ({why}) (shape not recognised)", XL)
+        else:
+            bad = [cv for cv, (with_, _) in res.items() if with_ != "exit"]
+            chk.ob(rid, "executor: the complete event ends the request loop of every task that does not complete its parent, whatever its runner says about its own completion",
+                   not bad, XL, "; ".join(f"runner.completed = {cv}: event set -> {w_ or 'goes on'}, event not set -> {wo_ or 'goes on'}" for cv, (w_, wo_) in res.items())
+                   + ("" if not bad else f": with runner.completed = {bad[0]} the client goes on issuing requests although the element has been completed"),
+                   key=f"{_D}:AsyncExecutor.__call__:complete-read:ends-others")
     if n_ctl == 0:
         polled = [n for n in walk_body(ex_call) if isinstance(n, ast.expr) and not isinstance(n, (ast.Name, ast.Attribute, ast.Constant)) and _reads_complete(n)] + \
                  [n for n in walk_body(ex_call) if is_self_attr(n, done) and isinstance(n.ctx, ast.Load) and not (isinstance(source.parent(n), ast.Attribute) and source.parent(n).attr in ("set", "clear"))]
@@ -2009,6 +2098,14 @@ def _row_view_model(drv):
     for cid, row in rows.items():
         m2.apply(m2.getattr(view, adders[0].name), [cid, row], {})
     drv._c01_row_view_model = (m2, view, rows, ij, tk)
+    # what the view's OWN is_joinpoint answers on a padding row: a worker all of whose clients idle through an element holds rows of None entries only (the allocator pads
+    # the rows of idle clients); the answer - `all(...)` over no entries is True - is part of the model the drive routine is interpreted on (_drive_on_values)
+    try:
+        pad = m2.new(CA)
+        m2.apply(m2.getattr(pad, adders[0].name), [7, [j0, None, j1]], {})
+        drv._c01_padding_is_joinpoint = bool(m2.apply(m2.getattr(pad, ij.name), [1], {}))
+    except _Cannot:
+        drv._c01_padding_is_joinpoint = None
     return drv._c01_row_view_model
 
 
@@ -2234,8 +2331,14 @@ def _drive_on_values(drv, wcls, drive_name, view_attr, w_cancel, w_done, complet
         reads.append(idx)
         return empties.setdefault(idx, []) if idx in EMPTY else [("row", idx)]
 
+    _row_view_model(drv)
+    pad_is_jp = getattr(drv, "_c01_padding_is_joinpoint", None)
+    if pad_is_jp is None:
+        raise _Cannot("what the row view's is_joinpoint answers on a row of padding entries (None for every client of the worker) cannot be interpreted")
+
     def is_joinpoint(idx):
-        return idx in JP
+        # the padding row answers what the module's own row view answers on it (interpreted on a model view): a drive routine that asks `at join point?` there must cope with it
+        return idx in JP or (idx in EMPTY and pad_is_jp)
 
     def event(label):
         st = {"v": False}
@@ -2687,23 +2790,58 @@ def run(chk):
                 mach = _Machine(drv)
                 started = ["w0", "w1", "w2"]
                 me_ = _Obj(None, **{w: list(started) for w in wl})
-                step_entries, covered, keyed = {}, [], []
+                step_entries, covered, keyed, timed = {}, [], [], []
+                # the closed step's arrival map as move_to_next_task receives it: keyed by worker id, in ARRIVAL order (worker 2 first), every entry (worker's timestamp, receive
+                # time) distinct; every other local the loop reads from in front of it (the coordinator's start time) is one number S. The time a worker is sent is then
+                # ts + S - received of exactly one entry: it must be the entry of the worker addressed, however the loop pairs workers and entries
+                S_ = 500000.0
+                entries_ = {2: (3000.0, 30.0), 0: (1000.0, 10.0), 1: (2000.0, 20.0)}
+                base_env = {"self": me_}
+                if sendname == "drive_at":
+                    fpar = [p_ for p_ in params_of(fn) if p_ != "self"]
+                    if fpar:
+                        base_env[fpar[0]] = dict(entries_)
+                    bound_in_loop = {x.id for x in ast.walk(loop) if isinstance(x, ast.Name) and isinstance(x.ctx, ast.Store)}
+                    read_in_loop = {x.id for x in ast.walk(loop) if isinstance(x, ast.Name) and isinstance(x.ctx, ast.Load)} - bound_in_loop
+                    in_loop = {id(y) for y in ast.walk(loop)}
+                    for n_ in walk_body(fn):  # the locals the loop reads from in front of it: what they evaluate to on the model (a list made of the map ...), else the number S
+                        if isinstance(n_, ast.Assign) and id(n_) not in in_loop and len(n_.targets) == 1 and isinstance(n_.targets[0], ast.Name) and n_.targets[0].id in read_in_loop \
+                                and n_.targets[0].id not in base_env:
+                            try:
+                                v_ = mach.ev(n_.value, dict(base_env))
+                            except _Cannot:
+                                v_ = S_
+                            base_env[n_.targets[0].id] = S_ if isinstance(v_, _Opaque) else v_
+                tpar_time = [p_ for p_ in (params_of(sm) if sm is not None else []) if p_ != "self" and tpar and p_ != tpar[0]]
                 try:
-                    for v in mach._iter(mach.ev(loop.iter, {"self": me_}), loop.iter):
-                        env = {"self": me_}
+                    for v in mach._iter(mach.ev(loop.iter, dict(base_env)), loop.iter):
+                        env = dict(base_env)
                         mach.bind(loop.target, v, env)
-                        for st_ in loop.body:  # plain single assignments in front of the call (w = entry[1] ...)
-                            if isinstance(st_, ast.Assign) and len(st_.targets) == 1 and isinstance(st_.targets[0], ast.Name) and not any(isinstance(x, ast.Call) for x in ast.walk(st_.value)):
+                        for st_ in loop.body:  # plain assignments in front of the call (w = entry[1]; a, b = entry ...)
+                            if isinstance(st_, ast.Assign) and len(st_.targets) == 1 and not any(isinstance(x, (ast.Call, ast.Attribute)) for x in ast.walk(st_.targets[0])) \
+                                    and not any(isinstance(x, ast.Call) for x in ast.walk(st_.value)):
                                 try:
                                     mach.bind(st_.targets[0], mach.ev(st_.value, env), env)
                                 except _Cannot:
                                     pass
                         a_ = mach.ev(addr, env)
                         covered.append(a_)
+                        if sendname == "drive_at" and len(tpar_time) == 1 and source.bind_args(c, sm).get(tpar_time[0]) is not None:
+                            try:
+                                tv_ = mach.ev(source.bind_args(c, sm)[tpar_time[0]], env)
+                            except _Cannot:
+                                tv_ = None
+                            if isinstance(tv_, (int, float)) and not isinstance(tv_, bool):
+                                timed.append((a_, [k_ for k_, (ts_, rc_) in entries_.items() if tv_ == ts_ + S_ - rc_]))
                         if sendname == "drive_at":
                             for n in ast.walk(loop):
                                 if isinstance(n, ast.Subscript) and isinstance(n.value, ast.Name) and n.value.id in params_of(fn) and isinstance(n.ctx, ast.Load):
-                                    keyed.append((a_, mach.ev(n.slice, env), n))
+                                    try:
+                                        k_ = mach.ev(n.slice, env)
+                                    except _Cannot:
+                                        continue  # a key that has no value in this iteration's bindings (the variable of a comprehension): the evaluation of the time sent decides
+                                    if not isinstance(k_, _Opaque):
+                                        keyed.append((a_, k_, n))
                 except _Cannot as x:
                     chk.unknown("O1.2b", f"{fname}: broadcast loop `for {u(loop.target)} in {u(loop.iter)}` not interpretable: {x}", loop)
                     continue
@@ -2714,12 +2852,17 @@ def run(chk):
                     + (f" under {[(u(t), p) for t, p in cond]}" if cond else "")
                 if ok and sendname == "drive_at":
                     # the per-step entry read for a worker is the one stored under that worker's id (= its position in the list of started workers)
-                    if not keyed:
+                    by_value = [(w_, ks_[0]) for w_, ks_ in timed if len(ks_) == 1 and w_ in started]
+                    if not keyed and not by_value:
                         chk.unknown("O1.2b", f"{fname}: no read of a per-worker entry of the closed step's arrival map in the Drive loop", loop)
                         continue
-                    wrong = [(w_, k_) for w_, k_, _ in keyed if not (w_ in started and k_ == started.index(w_))]
-                    ok = not wrong
-                    detail += f"; start time from {u(keyed[0][2])}" + ("" if ok else f": (worker, key read) {wrong[:2]} is another worker's entry")
+                    # the time actually sent decides; the keys read are the fallback where the time is not ts + S - received of one entry
+                    wrong = [(w_, k_) for w_, k_, _ in keyed if not (w_ in started and k_ == started.index(w_))] if not by_value else []
+                    wrong_v = [(w_, k_) for w_, k_ in by_value if k_ != started.index(w_)]
+                    ok = not wrong and not wrong_v
+                    detail += (f"; start time from {u(keyed[0][2])}" if keyed else "; start time evaluated on an arrival map filled in the order worker 2, 0, 1") \
+                        + ("" if not wrong else f": (worker, key read) {wrong[:2]} is another worker's entry") \
+                        + ("" if not wrong_v else f": (worker, worker whose timestamps its start time is computed from) {wrong_v[:3]} - the entry of another worker (entries taken in arrival order?)")
                 chk.ob("O1.2b", f"{fname}: {sendname} to every worker", ok, c, detail)
         # the map key is the worker id of the arriving worker
         roles = _arrival_roles(repo, drv, jr, jr_calls)
@@ -2734,8 +2877,11 @@ def run(chk):
         stepmap = stores[0].targets[0].value.attr
         # the entry is (worker's own timestamp, coordinator's receive time); the start time sent back is worker_ts + (start - received): the same pair order at writer and reader
         dcall = source.calls_in(mv, attr="drive_at")
-        unp = [n for n in walk_body(mv) if isinstance(n, ast.Assign) and isinstance(n.targets[0], ast.Tuple) and len(n.targets[0].elts) == 2 and isinstance(n.value, ast.Subscript)
-               and isinstance(n.value.value, ast.Name) and n.value.value.id in params_of(mv) and all(isinstance(t, ast.Name) for t in n.targets[0].elts)]
+        # the reader: the unpacking of an entry into two locals - the entry read off the map parameter directly or arriving through a local / a loop variable (WHOSE entry it is, is
+        # decided on values above; here only the order of the pair matters)
+        unp = [n for n in walk_body(mv) if isinstance(n, ast.Assign) and isinstance(n.targets[0], ast.Tuple) and len(n.targets[0].elts) == 2 and all(isinstance(t, ast.Name) for t in n.targets[0].elts)
+               and ((isinstance(n.value, ast.Subscript) and isinstance(n.value.value, ast.Name)) or isinstance(n.value, ast.Name))]
+        unp = [n for n in unp if isinstance(n.value, ast.Subscript) and n.value.value.id in params_of(mv)] or unp
         elts = list(stores[0].value.elts)
         pos_ts = [i for i, e in enumerate(elts) if isinstance(source.inline_node(e, jdefs_, no_calls=True), ast.Name) and source.inline_node(e, jdefs_, no_calls=True).id == roles["ts"]]
         pos_ck = [i for i, e in enumerate(elts) if isinstance(e, ast.Call) and (dotted(e.func) or "").startswith("time.")]
@@ -3272,7 +3418,7 @@ def run(chk):
                    "no complete.set() for this cause: sibling clients in the same worker keep running, no worker reaches the join point, the race hangs",
                    key=f"{_D}:AsyncExecutor.__call__:cause:{cause}")
 
-        complete_read_exemption_rule(chk, "O1.6", drv)
+        complete_read_exemption_rule(chk, "O1.6", drv, ends_others=True)
         # the event is cleared at exactly one point of the step cycle: in the join-point branch of Worker.drive before JoinPointReached is sent. The coordinator sends
         # CompleteCurrentTask only for the step it has driven, so a request set after that point belongs to the running (or about to start) tasks; clearing it anywhere
         # else (wake-up handler, Drive handler, executor) loses a request that is never repeated.
@@ -4172,4 +4318,38 @@ VARIANTS += [
       "            self.workers_completed_current_step = {}\n            workers_curr_step = self.workers_completed_current_step\n", "O1.3"),
     V("h5 break: parallel assignment resets the counter to one", "break", _D, "            self.currently_completed = 0\n            self.complete_current_task_sent = False\n",
       "            self.currently_completed, self.complete_current_task_sent = 1, False\n", "O1."),
+]
+
+
+# str6: seeds C01-m16 (Drive loop pairs workers with the arrival map's values in arrival order), C01-m17 (the row-skipping loop stops at padding rows), C01-m18 (the complete
+# event is consulted only when the runner reports no completion of its own)
+_DRV_LOOP = ("        for worker_id, worker in enumerate(self.workers):\n"
+             "            worker_ended_task_at, master_received_msg_at = workers_curr_step[worker_id]\n")
+_SKIP_LOOP = "        while len(task_allocations) == 0:\n            task_allocations = self.current_tasks_and_advance()\n"
+VARIANTS += [
+    V("str6 break (C01-m16): workers zipped with the values of the arrival map (arrival order)", "break", _D, _DRV_LOOP,
+      "        for worker_id, (worker, timestamps) in enumerate(zip(self.workers, workers_curr_step.values())):\n"
+      "            worker_ended_task_at, master_received_msg_at = timestamps\n", "O1.2b"),
+    V("str6 break: the i-th worker gets the i-th entry of the arrival map as a list", "break", _D, _DRV_LOOP,
+      "        arrivals = list(workers_curr_step.values())\n        for worker_id, worker in enumerate(self.workers):\n"
+      "            worker_ended_task_at, master_received_msg_at = arrivals[worker_id]\n", "O1.2b"),
+    V("str6 keep: workers zipped with the entries looked up by worker id", "keep", _D, _DRV_LOOP,
+      "        for worker_id, (worker, timestamps) in enumerate(zip(self.workers, [workers_curr_step[i] for i in range(len(self.workers))])):\n"
+      "            worker_ended_task_at, master_received_msg_at = timestamps\n"),
+    V("str6 keep: the entry travels through a local before it is unpacked", "keep", _D, _DRV_LOOP,
+      "        for worker_id, worker in enumerate(self.workers):\n            entry = workers_curr_step[worker_id]\n"
+      "            worker_ended_task_at, master_received_msg_at = entry\n"),
+    V("str6 break (C01-m17): the skipping loop stops where the row view says join point (true on padding rows)", "break", _D, _SKIP_LOOP,
+      "        while len(task_allocations) == 0 and not self.at_joinpoint():\n            task_allocations = self.current_tasks_and_advance()\n", "O1.9"),
+    V("str6 break: the join point test is made before empty rows are skipped", "break", _D,
+      _SKIP_LOOP + "\n        if self.at_joinpoint():\n",
+      "        at_jp = self.at_joinpoint()\n" + _SKIP_LOOP + "\n        if at_jp:\n", "O1.9"),
+    V("str6 keep: the skipping loop tests the row by truth", "keep", _D, _SKIP_LOOP,
+      "        while not task_allocations:\n            task_allocations = self.current_tasks_and_advance()\n"),
+    V("str6 break (C01-m18): the event is consulted only when the runner reports no completion of its own", "break", _D, _CMP_OLD,
+      "                completed = runner.completed\n                if completed is None and not task_completes_parent:\n                    completed = self.complete.is_set()\n", "O1.6"),
+    V("str6 break: the event counts only together with the runner's own completion", "break", _D, _POLL_OLD,
+      "                    completed = self.complete.is_set() and runner.completed\n", "O1.6"),
+    V("str6 keep: runner first, then the event for tasks that do not complete their parent", "keep", _D, _CMP_OLD,
+      "                completed = runner.completed\n                if not completed and not task_completes_parent:\n                    completed = self.complete.is_set()\n"),
 ]
